@@ -2,7 +2,7 @@
    "Handled" is read off the logged hook events (EvHandleEnter); "accepted" is the ghost list of
    everything the mailbox ever took in.  Every statement holds in every reachable state of every
    run (any schedule, fault pattern, capacity, number of actors and agents). *)
-From RS Require Import Tactics Spec Lifecycle Queue QueueStep CoreInv Delivery OpsSpec DeadLetters.
+From RS Require Import Tactics Spec Lifecycle Queue QueueStep CoreInv Delivery OpsSpec DeadLetters Exec Refine.
 
 (* the handler entries logged for an actor are exactly the envelopes its loop dequeued, in order *)
 Theorem C01_handled_is_dequeued : forall f ls a x,
@@ -58,6 +58,13 @@ Theorem C01_stop_marker_drains : forall f ls a x om,
     (forall i, In i rest -> ~ In i (a_taken x)).
 Proof. exact run_stop_marker. Qed.
 
+(* the tie's own theorem (stated here once, used by every check): whatever the executable reading of
+   the model - director actions and internal successors, which is all the OCaml driver can apply -
+   reaches from the initial state is a run of the LTS, so every theorem above and in the other
+   property files holds of every state the driver matches against a real observation *)
+Theorem C01_driver_states_are_runs : forall f x, explored f x -> exists ls, x_sys x = run f ls.
+Proof. exact explored_is_run. Qed.
+
 (* non-vacuity: two tells, a stop, a late tell; references dropped right after the sends *)
 Definition c01_example : list label :=
   [LSpawn 4; LBegin 1 KTell 0 None None FTell; LBegin 2 KTell 0 None None FTell;
@@ -73,7 +80,8 @@ Example C01_example_run :
 Proof. vm_compute. repeat split; reflexivity. Qed.
 
 Check C01_handled_is_dequeued. Check C01_at_most_once. Check C01_rejected_never.
-Check C01_result_stable. Check C01_rejected_never_later.
+Check C01_result_stable. Check C01_rejected_never_later. Check C01_driver_states_are_runs.
+Print Assumptions C01_driver_states_are_runs.
 Print Assumptions C01_result_stable.
 Print Assumptions C01_rejected_never_later.
 Check C01_dequeued_prefix_of_accepted. Check C01_stop_marker_drains.
